@@ -1,5 +1,5 @@
 """C15 — position primitives: line index, newline iteration, range algebra match the text.
-Rust engine (harness/vworker/src/engines/c15.rs): every text over {a, é, LF, CR, 😀} (+ BOM prefix) up to length n through
+Rust engine (harness/vworker/src/engines/c15.rs): every text over {a, é, LF, CR, 😀, U+FEFF} up to length n through
 LineIndex/SourceCode at every offset and line number; explicit exploration of every next()/next_back() interleaving of
 UniversalNewlineIterator against a reference deque; TextRange/TextSize algebra on all pairs of ranges over a boundary endpoint set."""
 import time, json
@@ -14,7 +14,7 @@ def run(tier, seed):
     b = BOUNDS[tier]
     d = C.run_engine('c15', b)
     r = C.engine_to_result(PROP, d, 'engine')
-    rule = ('texts: every string over {a, é, LF, CR, 😀} of length<=%(n)d, and BOM + every such string of length<=%(n)d-1, x every character-boundary offset x every '
+    rule = ('texts: every string over {a, é, LF, CR, 😀, U+FEFF} of length<=%(n)d x every character-boundary offset x every '
             'line number 1..count+1 through LineIndex/SourceCode; newline iterator: for every text over {a, é, LF, CR} of length<=%(iter_n)d, every sequence of '
             'next()/next_back() calls to exhaustion (+2 calls) at offsets 0 and 7 against a reference deque (states = (text, taken-front, taken-back), transitions = calls); '
             'ranges: every TextRange with endpoints in {0..6, 2^32-3..2^32-1}, all ordered pairs, all offsets of the same set; non-trivial = text with a line break / range pair' % b)
